@@ -2142,6 +2142,7 @@ def real_namespace():
             "spdiag": cvxopt.spdiag, "mul": cvxopt.mul, "div": cvxopt.div, "emax": cvxopt.max,
             "emin": cvxopt.min, "exp": cvxopt.exp, "log": cvxopt.log, "sqrt": cvxopt.sqrt,
             "sin": cvxopt.sin, "cos": cvxopt.cos, "array": _array.array,
+            "strided": (lambda a, start, step: memoryview(a)[start::step]),     # a non-contiguous 1-D buffer
             "bmax": builtins.max, "bmin": builtins.min, "bsum": builtins.sum,
             "axpy": base.axpy, "gemv": base.gemv, "gemm": base.gemm, "syrk": base.syrk,
             "symv": base.symv}
@@ -2152,6 +2153,7 @@ def ref_namespace():
     return {"matrix": matrix, "spmatrix": spmatrix, "sparse": sparse, "spdiag": spdiag,
             "mul": mul, "div": div, "emax": emax, "emin": emin, "exp": exp, "log": log,
             "sqrt": sqrt, "sin": sin, "cos": cos, "array": _array.array,
+            "strided": (lambda a, start, step: a[start::step]),                 # the elements that buffer exposes
             "bmax": bmax, "bmin": bmin, "bsum": bsum,
             "axpy": base_axpy, "gemv": base_gemv, "gemm": base_gemm, "syrk": base_syrk,
             "symv": base_symv}
